@@ -136,6 +136,9 @@ func (g *gen) reply() token {
 	case 11:
 		return token{"reply-xtgettcap", g.dcs(g.pick("1+r524742=38", "1+r536D756C78=5C45", "0+r524742", "1+r524742", "1+r", "+r524742=1", "1+r524742=1=2", "2+r536D756C78=", "1+r536d756c78=1"))}
 	case 12:
+		if g.n(2) == 0 {
+			return g.dcsReplyEdge()
+		}
 		return token{"reply-decrpss", g.dcs(g.pick("1$r2 q", "1$r0 q", "1$r6 q", "1$r7 q", "1$r q", "0$r", "1$r/ q", "1$r12 q", "$r3 q", "1$rq", "1$r3 q "))}
 	case 13:
 		return token{"reply-xtversion", g.dcs(">|" + g.pick("fake(1.0)", "kitty(0.31)", "tmux 3.4", "", "é日"))}
@@ -150,14 +153,58 @@ func (g *gen) reply() token {
 	case 18:
 		return token{"reply-osc10-11", g.osc(g.pick("10;rgb:ffff/ffff/ffff", "11;rgb:0000/0000/0000", "10", "11", "104", "110;x", "1"))}
 	case 19:
-		s := g.pick("hello", "", "päste\n", "a;b")
-		b := base64.StdEncoding.EncodeToString([]byte(s))
-		return token{"reply-osc52", g.osc(g.pick("52;c;"+b, "52;c;"+b, "52;;"+b, "52;c;!!!", "52;c", "52;c;"+b+";x", "52", "52;c;"+strings.TrimRight(b, "=")))}
+		return g.osc52()
 	case 20:
 		return token{"reply-osc176", g.osc(g.pick("176;fakeapp", "176;", "176", "176;a;b", "176;é"))}
 	default:
 		return token{"reply-osc-other", g.osc(g.pick("0;title", "8;;http://x", "", "5", "7;file://h/p", "12;x"))}
 	}
+}
+
+// an OSC 52 clipboard report: mostly well formed (three fields, valid base64), sometimes with a
+// wrong number of fields or an undecodable third field
+func (g *gen) osc52() token {
+	s := g.pick("hello", "", "päste\n", "a;b")
+	b := base64.StdEncoding.EncodeToString([]byte(s))
+	return token{"reply-osc52", g.osc(g.pick("52;c;"+b, "52;c;"+b, "52;;"+b, "52;c;!!!", "52;c", "52;c;"+b+";x", "52", "52;c;"+strings.TrimRight(b, "=")))}
+}
+
+// a well-formed clipboard report carrying a text of its own (so that the answers of different
+// reports in one case can be told apart)
+func (g *gen) osc52Text() token {
+	n := g.n(6)
+	b := make([]byte, n)
+	for i := range b {
+		b[i] = byte(g.pick("a", "b", "Z", "0", " ", ";", "\n", "\xc3", "\xa9", "q")[0])
+	}
+	sel := g.pick("c", "c", "p", "", "s0")
+	return token{"reply-osc52", g.osc("52;" + sel + ";" + base64.StdEncoding.EncodeToString(b))}
+}
+
+// DCS replies whose data string is at the boundary of what the handlers index: the DECRPSS
+// (DCS Ps $ r D..D ST) and XTGETTCAP (DCS Ps + r D..D ST) shapes with every short data string over
+// the characters the handlers look at (empty, only the " q" suffix, no style digit, several
+// digits, ...), with and without the DCS parameter
+func (g *gen) dcsReplyEdge() token {
+	alpha := " q0123456789/:;=+$"
+	n := g.n(5)
+	d := make([]byte, n)
+	for i := range d {
+		switch g.n(3) {
+		case 0:
+			d[i] = " q"[g.n(2)]
+		default:
+			d[i] = alpha[g.n(len(alpha))]
+		}
+	}
+	data := string(d)
+	if g.n(3) == 0 {
+		data += " q"
+	}
+	ps := g.pick("", "0", "1", "1", "2", "1;1")
+	inter := g.pick("$", "$", "+", "+", "!", ">", "$$", "")
+	fin := g.pick("r", "r", "r", "|", "q")
+	return token{"reply-dcs-edge", g.dcs(ps + inter + fin + data)}
 }
 
 func (g *gen) garbage() token {
